@@ -29,7 +29,7 @@ def run(tier, seed):
     e1 = vlib.model_check('InjectE1.tla', 'InjectE1.cfg', wd, workers=8)
     if not e1['ok']:
         raise vlib.Broken('InjectE1: the credential decision model does not match the map contract:\n' + e1['out'][-2500:])
-    col = daemon.colliding_uids(drv, wd, 150000 if tier != 'thorough' else 600000)
+    col, keyof = daemon.colliding_uids(drv, wd, 150000 if tier != 'thorough' else 600000)
     blocked = daemon.blocked_uids(drv, wd, rnd, k=40 if tier == 'thorough' else 8)
     plain = ['a', 'b', 'c', 'job@host', 'x' * 200]
     scripts = []
@@ -64,6 +64,10 @@ def run(tier, seed):
     bad = []
     for fn, k, g in v['bad'][:300]:
         rec = json.loads(vlib.getline(fn, k)); rec['script'] = scripts[g - 1][0]
+        # input class of the run: do two different UID strings of its requests have the same 32-bit key?
+        us = sorted(set(it['uid'] for e in rec['ev'] if e['e'] == 'Req' for it in e.get('items', [])))
+        ks = [keyof[u] for u in us if u in keyof]
+        rec['equal_key_uids'] = len(ks) != len(set(ks))
         bad.append((vlib.save_replay(PID, f'run{g}.json', rec), rec))
     unlisted, listed = vlib.classify(PID, bad)
     nreq = sum(1 for r in recs for e in r['ev'] if e['e'] == 'Req'); nhttp = sum(1 for r in recs for e in r['ev'] if e['e'] == 'Http')
@@ -71,7 +75,7 @@ def run(tier, seed):
     cov = {'states': e1['states'], 'transitions': e1['transitions'], 'traces_validated_against_impl': v['n'],
            'samples': [{'events': [e for e in recs[0]['ev'] if e['e'] != 'State']}], 'evaluations': v['n'], 'distinct_nontrivial': len(set('\n'.join(c) for c, _ in scripts)),
            'rule': 'one case = one history of requests against the real cmd_ical()/cmd_http() with chosen peer credentials: adds (1..3 events per request, optional X-ECHS-OWNER by uid or name, own/other/unknown), cancels, GET /sched, /queue (UIDs and the DTSTART each task is shown with) and /u/<other>/...; every request occupies a slot of the connection table of the daemon (make_conn/free_conn), in one history in eight other peers hold 30..63 connections open meanwhile, one in fifty is a burst of 14..20 changes by one user followed by a change and a listing of another user, one in fifty is a request of 55..120 items whose replies exceed the 4 KiB write buffer, one in fifty is connections coming and going only (up to and beyond 64); one history in eight is long (25..60 requests, half of them listings, the checkpoint timer in between); peers incl. root, a uid without passwd entry and up to 9 users; UID strings chosen with the real hash so that groups of 2..4 share 4..22 low bits of their table key, and so that the nine places the UID table probes first for the UID of one user are taken by UIDs of another user (the UID lives in the overflow area of the table)',
-           'requests': nreq, 'request_items': nitems, 'listings': nhttp, 'colliding_uid_groups': len(col), 'mismatching_runs': v['nbad'],
+           'requests': nreq, 'request_items': nitems, 'listings': nhttp, 'colliding_uid_groups': len(col), 'uid_groups_with_equal_keys': sum(1 for b, _ in col if b == 32), 'mismatching_runs': v['nbad'],
            'apalache': apa, 'e1_conn': 'ConnTable.tla (2 x 2 slots, 7 connections): SlotsSound, NoTakeover, RefusedOnlyWhenFull hold for the repaired search and fail for the as-found one', 'e1': 'InjectE1: credential case analysis of _inject_task1/_eject_task1 equals the map contract for 4 peers x 4 owner fields x every reachable 2-UID map (histories <= 3)', 'exhaustive': False}
     return vlib.finish(PID, tier, seed, 'model_checking', cov, t0, unlisted, listed,
                        ['TLC/SANY, Json/IOUtils', 'getpwuid/getpwnam interposed with a fixed user table (root, alice, bob, carol, u2000..u2063); daemon runs as root', 'the administrator\'s (uid 0) own listings are outside the property and not generated',
